@@ -26,7 +26,7 @@ NUM_VALUES = [-2.5, -1.0, 0.0, 0.5, 1.0, 2.0, 3.0, 7.25, 100.0, -0.125]
 ODD_NUM = "c d"  # non-identifier numeric column name (needs backticks)
 
 
-def frame(min_rows=1, max_rows=12, nulls=False, index_kinds=("default",), odd_names=False, cat_dtypes=("object", "str", "category")):
+def frame(min_rows=1, max_rows=12, nulls=False, index_kinds=("default",), odd_names=False, cat_dtypes=("object", "str", "category"), null_free=()):
     @st.composite
     def strat(draw):
         n = draw(st.integers(min_rows, max_rows))
@@ -39,7 +39,7 @@ def frame(min_rows=1, max_rows=12, nulls=False, index_kinds=("default",), odd_na
                 vals = draw(st.lists(st.sampled_from(NUM_VALUES), min_size=n, max_size=n))
             if dt == "Int64":
                 vals = draw(st.lists(st.integers(-3, 9), min_size=n, max_size=n))
-            if nulls and dt in ("float64", "Int64"):
+            if nulls and dt in ("float64", "Int64") and name not in null_free:
                 mask = draw(st.lists(st.sampled_from([0, 0, 0, 1]), min_size=n, max_size=n))
                 vals = [None if m else v for v, m in zip(vals, mask)]
             cols[name] = {"dtype": dt, "values": vals}
@@ -56,7 +56,7 @@ def frame(min_rows=1, max_rows=12, nulls=False, index_kinds=("default",), odd_na
                 if draw(st.booleans()) and k < len(pool):
                     cats = cats + [pool[k]]
                 col["categories"] = cats
-            if nulls and name != "G":
+            if nulls and name != "G" and name not in null_free:
                 mask = draw(st.lists(st.sampled_from([0, 0, 0, 0, 1]), min_size=n, max_size=n))
                 col["values"] = [None if m else v for v, m in zip(vals, mask)]
             cols[name] = col
@@ -163,6 +163,9 @@ def factor_src(f):
         return e, e
     if k == "hashed":
         e = f"hashed({qname(f['col'])}, levels={f['levels']})"
+        return e, e
+    if k == "st":
+        e = f"{f['fn']}({qname(f['col'])})"
         return e, e
     raise ValueError(k)
 
